@@ -245,3 +245,18 @@ def c06(ctx):
     r = hgen(ctx, "C06", ctx.path("rand.ndjson"))
     judge(ctx, "C06", vf.cat(ctx.path("vec.ndjson"), g1, r), what="Is / Matches / GetPossibilities / SatisfiedBy")
     ctx.exhaustive = True
+
+
+# =========================================================================== changelog (C17)
+@prop("C17", "C17Trace",
+      "TLC renders changelogs of 1..N entries drawn from 4 representative entries (1-2 distributions, 1-2 options, 4 body "
+      "shapes incl. blank/continued/' .' lines, ASCII and UTF-8 maintainers, 4 dates x zones) x leading blank lines x "
+      "blank-run length x final newline; the real parser is run on the full text, on EVERY prefix and by repeated "
+      "ParseOne, and on seeded single-byte corruptions.")
+def c17(ctx):
+    t = ctx.tier
+    mc(ctx, "ChangelogMC.tla", "ChangelogMC_%s.cfg" % t, what="ParseOne/Parse line machine: all entries or an error")
+    g1 = gen(ctx, "ChangelogGen.tla", "ChangelogGen_%s.cfg" % t, ctx.path("cl.ndjson"), what="rendered changelogs")
+    r = hgen(ctx, "C17", ctx.path("rand.ndjson"), base=g1)
+    judge(ctx, "C17", vf.cat(ctx.path("vec.ndjson"), g1, r), what="Parse on full text, every prefix, corruptions")
+    ctx.exhaustive = True
